@@ -147,6 +147,23 @@ def collectArgs (adv : Bool) : Nat → Helper → List Helper → NoExp → List
         else collectArgs adv f top' rest' ne' args (cur ++ [tok]) (depth - 1)
       else collectArgs adv f top' rest' ne' args (cur ++ [tok]) depth
 
+/-- the same loop for the call of a variadic macro (repair of finding D10; C11 6.10.3p12): once `k` arguments are complete
+    (`k` = `len(macro.args) - 1`, the number of named parameters) a comma no longer separates — the trailing arguments and the
+    commas between them form one argument -/
+def collectArgsV (adv : Bool) (k : Nat) : Nat → Helper → List Helper → NoExp → List (List Tok) → List Tok → Nat → Collected
+  | 0, _, _, _, _, _, _ => .bad (.other "fuel")
+  | f + 1, top, rest, ne, args, cur, depth =>
+    match consume adv top rest ne with
+    | .eop t r n => .eop t r n
+    | .bad e => .bad e
+    | .ok tok top' rest' ne' =>
+      if dtext tok == "," && depth == 1 && decide (args.length < k) then collectArgsV adv k f top' rest' ne' (args ++ [cur]) [] depth
+      else if dtext tok == "(" then collectArgsV adv k f top' rest' ne' args (cur ++ [tok]) (depth + 1)
+      else if dtext tok == ")" then
+        if depth == 1 then .ok (args ++ [cur]) top' rest' ne'
+        else collectArgsV adv k f top' rest' ne' args (cur ++ [tok]) (depth - 1)
+      else collectArgsV adv k f top' rest' ne' args (cur ++ [tok]) depth
+
 def totalToks (st : List Helper) : Nat := st.foldl (fun n h => n + h.toks.length) 0
 
 /-! ## `MacroFunction.replace` -/
@@ -225,7 +242,7 @@ def strcatPass (params : List String) (inputArgs : List Arg) : Nat → List Tok 
           | some a =>
             match stringify a.raw with
             | none => .error .type_
-            | some t => strcatPass params inputArgs fuel rest'' (res ++ [(t, true)]) true false pmw
+            | some t => strcatPass params inputArgs fuel rest'' (res ++ [({ t with pw := tok.pw }, true)]) true false pmw   -- `tok.prev_white = hash_white`
     else strcatPass params inputArgs fuel rest' (res ++ [(tok, false)]) false false pmw
 
 /-- the final substitution loop of `MacroFunction.replace`: tokens marked `is_arg` are copied -/
@@ -317,7 +334,8 @@ def stepCall (c : Cfg) (s : MS) (top : Helper) (rest : List Helper) (t : Tok) (m
     | .eop t r n => .cont (eopState t r n s.frames)
     | .bad e => .err e
     | .ok _ top1 rest1 ne1 =>
-      match collectArgs c.adv (totalToks (top1 :: rest1) + 1) top1 rest1 ne1 [] [] 1 with
+      match (if m.variadic then collectArgsV c.adv ((m.args.getD []).length - 1) (totalToks (top1 :: rest1) + 1) top1 rest1 ne1 [] [] 1
+             else collectArgs c.adv (totalToks (top1 :: rest1) + 1) top1 rest1 ne1 [] [] 1) with
       | .eop t r n => .cont (eopState t r n s.frames)
       | .bad e => .err e
       | .ok args top2 rest2 ne2 => processArgs c t.pw m args [] ⟨top2 :: rest2, ne2, s.frames, none⟩
